@@ -78,6 +78,9 @@ func checkC20(c *Check) {
 	c.serverContracts("C20.3 serve-after-close")
 	c.accumulatorsStartEmpty("C20.2 accumulators", "Server.ListPeers")
 	isExists := func(e *Expr) bool {
+		if e.Op == "nn" && e.Args[0].Op == "val" && typeKey(e.Args[0].Typ) == "*peer" {
+			return true // `p := s.peers[k]; p != nil` (only non-nil peers are ever stored)
+		}
 		return e.Op == "ex" && len(e.Args) == 2 && e.Args[0].Op == "val" && isBoolType(e.Typ)
 	}
 	isServing := func(e *Expr) bool { return isLoadOfField(e, "serving") }
